@@ -420,6 +420,19 @@ func c02Growth(c *Ctx, ix *idxEngine, rows, hdr, cells, inTable, nCols, cols *ty
 				}
 			}
 		}
+		// likewise a row allocated right here whose cell list is never set
+		if al, isAl := g.rowV.(*ssa.Alloc); isAl && !g.grows {
+			storesCells := false
+			for _, fs := range c.StoresTo(cells) {
+				if fs.Base == ssa.Value(al) {
+					storesCells = true
+				}
+			}
+			if !storesCells {
+				r.Check("R02.3", FuncName(fn), g.what+": row without a cell list has nothing to count", g.at.Pos(), true, "built here without cells")
+				continue
+			}
+		}
 		ok, why := false, "no call to the resize helper with this row's cell count"
 		eachInstr(fn, func(in ssa.Instruction) {
 			if staticCallee(in) != resize || ok {
